@@ -29,7 +29,12 @@ def gen_cases(tier, seed):
     for i in range(n):
         d = gs.gen_spec(rnd, rnd.choice(["mm1", "mv1", "chain2", "chain2", "fanin2", "mvchain2"] + (["chain3"] if tier != "quick" else [])),
                         levels=rnd.choice([2, 2, 3]), costs=rnd.choice(["tradeoff", "random"]))
-        variant = rnd.choice(["plain", "named_like_output", "n_instances"])
+        variant = rnd.choice(["plain", "named_like_output", "n_instances", "n_instances"])
+        if rnd.random() < 0.6:
+            # leak power: a part of the totals that does not come from action counts
+            for m in d["arch"]["mems"]:
+                m["leak"] = rnd.choice([0, 0.01, 0.5, 2])
+            d["arch"]["mac"]["leak"] = rnd.choice([0, 0.01, 0.5])
         if variant == "named_like_output":
             for e in d["workload"]["einsums"]:
                 e["name"] = [t["name"] for t in e["tensors"] if t["out"]][0]
